@@ -1,7 +1,8 @@
 (** C09 — mh / mala / hmc: the accept rule, the Metropolis-Hastings balance
     identity, leapfrog reversibility, frame and reject identity.
-    Not mechanised (partial): volume preservation of the leapfrog map and the
-    measure-theoretic detailed balance on R^n; the finite-support detailed
+    Volume preservation of the leapfrog map is mechanised for affine gradients
+    (C09_leapfrog_volume_affine).  Not mechanised (partial): volume preservation for
+    general gradients and the measure-theoretic detailed balance on R^n; the finite-support detailed
     balance of mh follows from [C09_mh_balance] and the regenerate weight
     theorem (C04) but is not assembled into one statement. *)
 From Coq Require Import QArith Qminmax List Bool Lia ZArith.
@@ -66,6 +67,20 @@ Theorem C09_leapfrog_reversible :
       flipm R opp (iterl R add mul G e h n (flipm R opp (iterl R add mul G e h n s))) = s.
 Proof. intros. eapply leapfrog_reversible; eauto. Qed.
 Print Assumptions C09_leapfrog_reversible.
+
+(** hmc: for an affine gradient (any Gaussian target, per coordinate), over any commutative ring,
+    n leapfrog steps are an affine map of (position, momentum) whose linear part has determinant 1:
+    the proposal preserves phase-space volume, so the plain energy difference is the
+    Metropolis-Hastings ratio.  (Volume preservation for non-affine gradients needs the Jacobian
+    of an arbitrary gradient function and is not mechanised.) *)
+Theorem C09_leapfrog_volume_affine :
+  forall (R : Type) (zero one : R) (add mul sub : R -> R -> R) (opp : R -> R),
+    ring_theory zero one add mul sub opp (@eq R) ->
+    forall (G : R -> R) (e h a b : R), (forall x, G x = add (mul a x) b) ->
+    forall n, exists M c,
+      (forall s, iterl R add mul G e h n s = aff R add mul M c s) /\ det R mul sub M = one.
+Proof. intros R zero one add mul sub opp Rth G e h a b HG n. eapply leapfrog_volume; eauto. Qed.
+Print Assumptions C09_leapfrog_volume_affine.
 
 (** rejected moves return the input unchanged; accepted or not, unselected
     coordinates are untouched *)
